@@ -137,6 +137,27 @@ class World:
         imp = [enc(getattr(rec, d)) for d in element.implied.names]
         return {"key": key, "imp": imp}
 
+    def join_table_rows(self, e):
+        """the rows of a join table straight from the SQLite file (None if the element has no table of its own)"""
+        import sqlite3
+        con = sqlite3.connect(f"file:{self.root}/gen3.sqlite3?mode=ro", uri=True, timeout=30)
+        try:
+            con.row_factory = sqlite3.Row
+            try:
+                cur = con.execute(f'SELECT * FROM "{e.name}"')
+            except sqlite3.Error:
+                return None
+            names = list(e.required.names) + list(e.implied.names)
+            out = []
+            for row in cur.fetchall():
+                cols = set(row.keys())
+                if not set(names) <= cols:
+                    return None
+                out.append(e.RecordClass(**{n: row[n] for n in names}))
+            return out
+        finally:
+            con.close()
+
     def read_db(self):
         """the rows stored in SQLite right now, seen through an INDEPENDENT freshly opened Butler (the working
         Butler's in-memory dimension-record cache must not be what the expansions are compared with)"""
@@ -147,7 +168,15 @@ class World:
             if e.name in self.universe.skypix_dimensions.names:
                 continue
             rows = []
-            for r in fresh.registry.queryDimensionRecords(e.name):
+            recs = None
+            if e.name not in self.universe.dimensions.names:
+                # a join table: queryDimensionRecords joins it with the dimension tables and silently drops the rows that
+                # relate records disagreeing on a common implied dimension (a visit_definition between a visit and an
+                # exposure with different filters), but fetch_one / expandDataId see the plain table -- read it as it is
+                recs = self.join_table_rows(e)
+            if recs is None:
+                recs = list(fresh.registry.queryDimensionRecords(e.name))
+            for r in recs:
                 o = self.rec_obs(e, r)
                 rows.append(o)
                 self.rec_index[(e.name, json.dumps(o["key"]))] = r
